@@ -13,6 +13,7 @@ import pygaps.modelling as pgm
 from pygaps.characterisation import models_thickness, psd_kernel
 from pygaps.data import ADSORBATE_LIST, MATERIAL_LIST
 from pygaps.iast import iast_point
+from pygaps.units.converter_mode import _LOADING_MODE, _MATERIAL_MODE
 
 from pbt import case as K
 from pbt import ref_units as ru
@@ -58,6 +59,13 @@ def _base_data(shape):
             [0] * len(p_ads) + [1] * len(p_des))
 
 
+def _other_unit(table, basis, unit):
+    keys = [k for k in (table.get(basis) or {}) if k is not None]
+    if unit not in keys or len(keys) < 2:
+        return None
+    return keys[(keys.index(unit) + 1) % len(keys)]
+
+
 def build_world(desc, reset=True):
     """Builds the objects of the case from the descriptor. Deterministic."""
     if reset:
@@ -77,6 +85,14 @@ def build_world(desc, reset=True):
                     loading_basis=units["loading_basis"], loading_unit=units["loading_unit"],
                     material_basis=units["material_basis"], material_unit=units["material_unit"])
         iso.convert_temperature(units["temperature_unit"])
+        if key == "B" and desc.get("b_other_units"):
+            # the companion isotherm reported in other units of the same bases (two instruments, two export settings)
+            lu, mu = _other_unit(_LOADING_MODE, units["loading_basis"], units["loading_unit"]), \
+                _other_unit(_MATERIAL_MODE, units["material_basis"], units["material_unit"])
+            if lu:
+                iso.convert_loading(unit_to=lu)
+            if mu:
+                iso.convert_material(unit_to=mu)
         world[key] = iso
     # the same data on an adsorbate WITHOUT thermodynamic backend whose constants the user supplied (documented fallback)
     uf = ru.UserFluid(101325.0, 30.07, 0.018, 6.5e-5)
@@ -473,8 +489,9 @@ def _op(focus=None):
 def strat_history(focus=None, min_ops=2, max_ops=10):
     shape = st.builds(lambda nm, C, step, p0: {"nm": round(nm, 4), "C": round(C, 2), "step": round(step, 3), "p0": round(p0, 3)},
                       st.floats(0.5, 8.0), st.floats(20.0, 400.0), st.floats(0.0, 6.0), st.floats(0.35, 0.7))
-    return st.builds(lambda u, mat, sh, ops: {"units": u, "material": mat, "shape": sh, "ops": ops},
-                     S.units(), S.material(), shape, st.lists(_op(focus), min_size=min_ops, max_size=max_ops))
+    return st.builds(lambda u, mat, sh, bo, ops: {"units": u, "material": mat, "shape": sh, "b_other_units": bo, "ops": ops},
+                     S.units(), S.material(), shape, st.sampled_from([False, False, True]),
+                     st.lists(_op(focus), min_size=min_ops, max_size=max_ops))
 
 
 def _argclass(op):
